@@ -604,6 +604,11 @@ func checkC18(c *Ctx) {
 	c.addInt("traces_validated_against_impl", n)
 	c.addInt("evaluations", n)
 	c.addInt("distinct_nontrivial", int64(len(corpus)))
+	// (e) once more, without reference to the specification: the operator matrix in minimal and in full parentheses, each pair
+	// compared with itself (a choice the specification leaves open must at least be the same choice in both writings)
+	if np := c.parenPairs(filepath.Join(c.Work, "corpus_FamOps.ndjson"), 3); np > 0 {
+		c.addInt("traces_validated_against_impl", np)
+	}
 	ne := c.metaExamples(rng)
 	c.addInt("traces_validated_against_impl", ne)
 	c.cov("programs", len(corpus))
